@@ -335,7 +335,9 @@ add("C05", "TestC05", note_current=True,
           "segment_declarations, csv2 records or fixedlength2 envelopes (header-regex, header+footer, rows 1-2); a unit sequence that is "
           "mostly a valid-by-construction instance with 0-2 insert/delete/duplicate/swap edits (for EDI sometimes a second top-level "
           "round), in ~10% uniformly random over the names plus an undeclared X (length <= 12); variants: empty input, blank lines, LF or "
-          "CRLF, unterminated final unit, several EDI segment delimiters, ignore_crlf. Every unit carries a unique id that the schema "
+          "CRLF, unterminated final unit, several EDI segment delimiters, ignore_crlf. ~6% of cases are deep chains instead: 7-15 nested "
+          "declarations (one child per level, letters A-P, some levels groups, min 1) with a valid instance of <= 40 units and 0-1 edits "
+          "(the readers' frame stacks start with capacity 10). Every unit carries a unique id that the schema "
           "reads into the delivered tree. Oracle: model.Greedy (recursive greedy non-backtracking matcher incl. the EDI top-level "
           "repetition pinned by the repo's test) - same target trees from RawRecord().Raw(), same count, same terminal kind, same copy() "
           "JSON; EDI tokenizer observed directly. Thorough tier adds TestC05Enum: per drawn hierarchy ALL unit sequences up to length 6 "
@@ -344,7 +346,7 @@ add("C05", "TestC05", note_current=True,
     thorough={"checks": 60000, "shards": 16, "timeout": 3300, "extra": [{"test": "TestC05Enum", "checks": 25, "shards": 16}]},
     floors={"outcome=fatal": 0.30, "target-in-group": 0.20, "format=edi": 0.15, "format=csv2": 0.15, "format=fixedlength2": 0.15,
             "no-final-terminator": 0.08, "blank-lines": 0.10, "empty-input": 0.03, "edi-root-repeats": 0.01,
-            "group-first-member-is-group": 0.15, "__nontrivial__": 0.15},
+            "group-first-member-is-group": 0.15, "__nontrivial__": 0.15, "nesting>=10": 0.02},
     assumptions=["max = 0 is excluded (the statement says max in {1,2,...,unbounded}); header/footer regexes are anchored literals",
                  "the EDI top-level declaration list may repeat under a fresh root (pinned by edi/reader_test.go 'multiple root level segments, success')"])
 
